@@ -488,8 +488,16 @@ func vhCollect(v vhreflect.Value, depth int, out *[]vhField) {
 			if !f.IsExported() && ft.Kind() != vhreflect.Struct {
 				continue
 			}
-			if name == "" && ft.Kind() == vhreflect.Struct && f.Type.Kind() == vhreflect.Struct && !vhUserJSON[ft] && ft != vhTimeType {
-				vhCollect(v.Field(i), depth+1, out) // promoted
+			if name == "" && ft.Kind() == vhreflect.Struct && !vhUserJSON[ft] && ft != vhTimeType && (f.Type.Kind() == vhreflect.Struct || f.IsExported()) {
+				fv := v.Field(i)
+				if f.Type.Kind() == vhreflect.Ptr {
+					// an embedded pointer to a struct: promoted like the struct itself, nothing at all when nil
+					if fv.IsNil() {
+						continue
+					}
+					fv = fv.Elem()
+				}
+				vhCollect(fv, depth+1, out) // promoted
 				continue
 			}
 		} else if !f.IsExported() {
